@@ -291,6 +291,11 @@ def isinstance_(I, v, t):
         return isinstance(v, NT) and v.cls is t
     if isinstance(t, Opaque) and t.tag == 'abc':
         return abc_instance(I, v, t.payload)
+    if isinstance(t, Opaque) and t.tag == 'pyclass':
+        from . import dtmodel
+        r = dtmodel.isinstance_hook(I, v, t)
+        if r is not None:
+            return r
     raise Unsupported('isinstance with %r' % (t,))
 
 
@@ -399,7 +404,8 @@ def str_format(I, fmt, args, kwargs):
                 ln = z3.Length(sz)
                 padded = z3.If(ln >= w, sz, z3.Concat(z3.SubString(pad, 0, w - ln), sz))
                 if I.ctx.branch(I.z(v, 'int') < 0):
-                    raise Unsupported('padded format of a negative symbolic int')
+                    parts.append(opaque_str(I, 'padded_negative_int'))
+                    continue
                 pv = SV(padded, 'str')
                 pv.from_int = I.z(v, 'int')
                 pv.fmt_spec = spec
@@ -988,7 +994,8 @@ def make_libs(I):
 
     L['collections.abc.Iterable'] = Opaque('abc', 'Iterable')
     L['collections.Iterable'] = Opaque('abc', 'Iterable')
-    L['datetime.datetime'] = Opaque('datetime.datetime.class')
+    from . import dtmodel
+    L.update(dtmodel.libs(I))
 
     extra = I.config.get('libs')
     if extra:
@@ -1075,6 +1082,10 @@ def shallowcopy(I, v):
 
 
 def opaque_attr(I, obj, name):
+    from . import dtmodel
+    r0 = dtmodel.opaque_attr(I, obj, name)
+    if r0 is not NOATTR:
+        return r0
     h = I.config.get('opaque_attr')
     if h is not None:
         r = h(I, obj, name)
@@ -1088,6 +1099,9 @@ def opaque_attr(I, obj, name):
 
 
 def opaque_binop(I, op, a, b):
+    if isinstance(a, Opaque) and isinstance(b, Opaque) and a.tag in ('datetime', 'time') and b.tag in ('datetime', 'time'):
+        from . import dtmodel
+        return dtmodel.opaque_binop(I, op, a, b)
     h = I.config.get('opaque_binop')
     if h is not None:
         return h(I, op, a, b)
